@@ -16,7 +16,8 @@ relabelled back (`toM33_eq_core`); both by `cases o` on the REGENERATED definiti
 algorithm's own argument ("remove the first rotation so that gimbal lock cannot occur").
 
 Consequences: the round trip through 4×4 matrices and (unit) quaternions, surjectivity of `toMatrix33` onto the
-rotation matrices for every order, and that the re-ordering constructor PRESERVES THE ROTATION.
+rotation matrices for every order, and that the re-ordering constructor PRESERVES THE ROTATION (`reorder_any_pair`: all 576 pairs
+for the composition `extract_n ∘ toMatrix33_o`; the extracted constructor on 50 pairs).
 -/
 set_option autoImplicit false
 set_option linter.unusedTactic false
@@ -143,6 +144,22 @@ theorem reorder_preserves_rotation (o : Ord) {sqrt sin cos : α → α} {atan2 :
   refine ⟨⟨?_, rfl⟩, ⟨?_, rfl⟩⟩
   · exact toMatrix33_extract o hs ht _ (toMatrix33_orthonormal_det_one .XYZ sin cos a (trig_hsc ht)).1 (toMatrix33_orthonormal_det_one .XYZ sin cos a (trig_hsc ht)).2.2
   · exact toMatrix33_extract .ZYXr hs ht _ (toMatrix33_orthonormal_det_one o sin cos a (trig_hsc ht)).1 (toMatrix33_orthonormal_det_one o sin cos a (trig_hsc ht)).2.2
+
+/-- the general fact behind it, for EVERY pair of orders (576 pairs): converting the angles of any triple of order `o` to order `n`
+    by `extract_n ∘ toMatrix33_o` — which is what the constructor's order-agnostic body does (`reorder_ctor_eq`, witnessed by
+    extraction for XYZ → n, o → ZYXr and YXYr → XZX) — gives a triple of order `n` with the same rotation matrix -/
+theorem reorder_any_pair (o n : Ord) {sqrt sin cos : α → α} {atan2 : α → α → α} (hs : SqrtOK sqrt) (ht : TrigSpec sin cos atan2) (a : V3 α) :
+    toM33 n sin cos (exM33 n sqrt sin cos atan2 (toM33 o sin cos a)) = toM33 o sin cos a :=
+  toMatrix33_extract n hs ht _ (toMatrix33_orthonormal_det_one o sin cos a (trig_hsc ht)).1 (toMatrix33_orthonormal_det_one o sin cos a (trig_hsc ht)).2.2
+
+/-- the two additionally extracted pairs preserve the rotation and set the new order -/
+theorem reorder_other_pairs_preserve_rotation {sqrt sin cos : α → α} {atan2 : α → α → α} (hs : SqrtOK sqrt) (ht : TrigSpec sin cos atan2) (a : V3 α) :
+    (toM33 .XZX sin cos (Gen.Euler.reorder_YXYr_XZX sqrt sin cos atan2 a).1 = toM33 .YXYr sin cos a
+      ∧ (Gen.Euler.reorder_YXYr_XZX sqrt sin cos atan2 a).2 = (Ord.XZX.code : Int))
+    ∧ (toM33 .YZXr sin cos (Gen.Euler.reorder_ZXY_YZXr sqrt sin cos atan2 a).1 = toM33 .ZXY sin cos a
+      ∧ (Gen.Euler.reorder_ZXY_YZXr sqrt sin cos atan2 a).2 = (Ord.YZXr.code : Int)) := by
+  rw [(reorder_ctor_eq_other_pairs sqrt sin cos atan2 a).1, (reorder_ctor_eq_other_pairs sqrt sin cos atan2 a).2]
+  exact ⟨⟨reorder_any_pair .YXYr .XZX hs ht a, rfl⟩, ⟨reorder_any_pair .ZXY .YZXr hs ht a, rfl⟩⟩
 
 /-- the matrix constructors: `Euler (M, order).toMatrix33 () = M` for every rotation matrix -/
 theorem ctor_matrix_roundtrip (o : Ord) {sqrt sin cos : α → α} {atan2 : α → α → α} (hs : SqrtOK sqrt) (ht : TrigSpec sin cos atan2)
@@ -415,6 +432,18 @@ theorem makeNear_other_order_within (o : Ord) (ho : o ≠ .XYZ) {sqrt sin cos : 
       ∧ |(makeNearXYZ o sqrt sin cos atan2 angleMod a t).1.z - t'.z| ≤ bound := by
   refine ⟨(reorderFromXYZ o sqrt sin cos atan2 t).1, (reorder_preserves_rotation o hs ht t).1.1, ?_⟩
   rw [(makeNear_other_order o sqrt sin cos atan2 angleMod a t).1, if_neg ho]
+  exact makeNear_within o angleMod bound a _ hrange
+
+/-- the same for a target of order ZYXr (the other extracted target order): within `bound` of the converted target
+    `t' = extract_o (toMatrix33_ZYXr t)`, which represents the target's rotation (`reorder_any_pair`) -/
+theorem makeNear_other_order_within_ZYXr (o : Ord) (ho : o ≠ .ZYXr) {sqrt sin cos : α → α} {atan2 : α → α → α} (hs : SqrtOK sqrt) (ht : TrigSpec sin cos atan2)
+    (angleMod : α → α) (bound : α) (a t : V3 α) (hrange : ∀ d, |angleMod d| ≤ bound) :
+    ∃ t' : V3 α, toM33 o sin cos t' = toM33 .ZYXr sin cos t
+      ∧ |(makeNearZYXr o sqrt sin cos atan2 angleMod a t).1.x - t'.x| ≤ bound
+      ∧ |(makeNearZYXr o sqrt sin cos atan2 angleMod a t).1.y - t'.y| ≤ bound
+      ∧ |(makeNearZYXr o sqrt sin cos atan2 angleMod a t).1.z - t'.z| ≤ bound := by
+  refine ⟨exM33 o sqrt sin cos atan2 (toM33 .ZYXr sin cos t), reorder_any_pair .ZYXr o hs ht t, ?_⟩
+  rw [(makeNear_other_order o sqrt sin cos atan2 angleMod a t).2, if_neg ho]
   exact makeNear_within o angleMod bound a _ hrange
 
 /-- non-vacuity over ℝ (rescaled sine / cosine with half period `M_PI`, exact model of `angleMod`): target in order ZYXr, `e` in order YXZ -/
